@@ -44,6 +44,17 @@ pub struct Scenario {
     pub threads: Vec<Vec<Op>>,
 }
 
+/// Route the repository's per-file analysis lock (hook H3) into the scheduler.
+pub fn install_file_lock_hook() {
+    let _ = pytest_language_server::fixtures::verif_hooks::FILE_LOCK_HOOK.set(|addr, acquire| {
+        if acquire {
+            vsched::acquire(addr, vsched::Mode::Exclusive)
+        } else {
+            vsched::release(addr, vsched::Mode::Exclusive)
+        }
+    });
+}
+
 pub fn lock_names(db: &FixtureDatabase) -> HashMap<usize, String> {
     let mut m = HashMap::new();
     macro_rules! reg {
@@ -67,6 +78,7 @@ pub fn lock_names(db: &FixtureDatabase) -> HashMap<usize, String> {
     reg!(available_fixtures_cache);
     reg!(imported_fixtures_cache);
     reg!(plugin_fixture_files);
+    reg!(file_analysis_locks);
     m
 }
 
@@ -103,6 +115,7 @@ pub fn snap(db: &FixtureDatabase) -> Vec<String> {
 pub fn run_schedule(sc: &Scenario, choices: &[usize], horizon: usize) -> Run {
     let sc = sc.clone();
     let choices = choices.to_vec();
+    install_file_lock_hook();
     crate::seed::on_fresh_thread(move || {
         let db = Arc::new(FixtureDatabase::new());
         for op in &sc.pre {
@@ -124,7 +137,7 @@ pub fn run_schedule(sc: &Scenario, choices: &[usize], horizon: usize) -> Run {
             .collect();
         let outcome = vsched::run_execution(
             bodies,
-            ExecConfig { choices, horizon, lock_names: names, watchdog: Duration::from_secs(10) },
+            ExecConfig { light: false, choices, horizon, lock_names: names, watchdog: Duration::from_secs(10) },
         );
         let (snapshot, invariants) = if outcome.abort.is_none() {
             (Some(snap(&db)), index_invariants(&db, ROOT))
